@@ -19,7 +19,7 @@ func init() {
 			"R3 dispatch agreement — the first-token set of parseDDL / parseDMLInternal / the query path is included in the guard under which parseStatementInternal routes to it, and the specific entry points reach the same internal productions as ParseStatement. " +
 			"R4 the list entry points hand the generic parseStatements the same production their single-statement sibling calls. " +
 			"Decides: contradictions between a guard and what it guards. Does not decide: acceptance of every sentence of the reference grammar.",
-		Rules: []ruleFn{ruleC08R1, ruleC08R2, ruleC08R3, ruleC08R4, ruleC08R5},
+		Rules: []ruleFn{ruleC08R1, ruleC08R2, ruleC08R3, ruleC08R4, ruleC08R5, ruleC08R6, ruleC08R7},
 	})
 }
 
@@ -577,4 +577,182 @@ func ruleC08R5(w *World, r *Report) {
 			r.bad(rule, construct, w.pos(fn.Pos()), fmt.Sprintf("the function can start with %v but its call sites admit only %s, and %s: that alternative is unreachable", atoms, e, strings.Join(cut, "; ")))
 		}
 	}
+}
+
+// ruleC08R6: a pure look-ahead (a function whose deferred closure always rewinds the lexer to a clone taken at
+// entry) answers a yes/no question about the upcoming tokens; it must not raise, because a raise is not a "no":
+// it leaves through the enclosing production and the alternative the caller would have taken next is never tried.
+func ruleC08R6(w *World, r *Report) {
+	const rule = "C08/R6"
+	r.rule(rule, "look-ahead functions (deferred unconditional rewind of Parser.Lexer to a clone taken at entry) cannot raise: under the token kinds admitted by their call sites, no raise point of the function or of anything it calls (in the callee's own token context, error recovery off) is reachable", 5)
+	tk := w.TKAI()
+	if miss := tk.anchorsOK(); len(miss) > 0 {
+		r.errorf("TKAI anchors missing: %v", miss)
+		return
+	}
+	for _, fn := range w.ModFns {
+		if fnPkgPath(fn) != modRoot || fn.Parent() != nil || fn.Blocks == nil {
+			continue
+		}
+		if _, ok := tk.deferredRestore(fn); !ok {
+			continue
+		}
+		construct := "look-ahead " + funcName(fn)
+		e := tk.entryFact(fn)
+		ci := &ctxInfo{key: tkCtx{fn, e.Key(), "", false, true}, fn: fn, entry: e}
+		tk.calleeRaise = false
+		res := tk.flow(ci, fn.Blocks[0], [2]*TState{newTState(e), nil}, nil, nil)
+		var where []string
+		if len(res.rz) > 0 {
+			where = append(where, "a raise point of its own")
+		}
+		// name the calls that can raise
+		for _, b := range fn.Blocks {
+			for _, in := range b.Instrs {
+				c, ok := in.(*ssa.Call)
+				if !ok {
+					continue
+				}
+				callee := c.Call.StaticCallee()
+				if callee == nil || fnPkgPath(callee) != modRoot || callee.Blocks == nil || !tk.touchesLexer(callee) || callee == tk.prim {
+					continue
+				}
+				sts := tk.statesBefore(res, in)
+				for _, st := range sts {
+					if st == nil {
+						continue
+					}
+					consts := map[int]string{}
+					for ai, a := range c.Call.Args {
+						if s, ok := constString(a); ok {
+							consts[ai] = s
+						}
+					}
+					if sum := tk.summaryMode(callee, st.cur, consts, false, true); sum.mayRaise {
+						where = append(where, fmt.Sprintf("%s at %s with the current token in %s", funcName(callee), w.pos(c.Pos()), st.cur))
+					}
+				}
+			}
+		}
+		if len(where) > 0 || tk.calleeRaise {
+			if len(where) == 0 {
+				where = append(where, "a callee")
+			}
+			r.bad(rule, construct, w.pos(fn.Pos()), "the look-ahead can raise instead of answering no: "+strings.Join(uniqSorted(where), "; "))
+		} else {
+			r.ok(rule, construct, w.pos(fn.Pos()), "no raise point reachable under "+e.String())
+		}
+	}
+}
+
+// ruleC08R7: predictor/parser agreement for parenthesised queries. lookaheadSubQuery answers "is this '(' the start of a
+// sub-query?"; for "((...(SELECT ...)...) k" it answers yes only for some kinds k. parseQueryExpr is what then reads
+// "(SELECT ...) k ...": every kind under which it goes on consuming after a simple query expression is a kind the
+// predictor has to say yes to, otherwise "((SELECT ...) k ...)" is routed to the join / expression alternative and rejected.
+func ruleC08R7(w *World, r *Report) {
+	const rule = "C08/R7"
+	r.rule(rule, "lookaheadSubQuery answers yes for every token kind under which parseQueryExpr continues to consume after a simple query expression (set operators and query suffixes): the predictor's table contains the parser's", 1)
+	tk := w.TKAI()
+	var la, pq, simple *ssa.Function
+	for _, fn := range w.ModFns {
+		if fnPkgPath(fn) != modRoot || fn.Parent() != nil {
+			continue
+		}
+		switch funcName(fn) {
+		case "(*Parser).lookaheadSubQuery":
+			la = fn
+		case "(*Parser).parseQueryExpr":
+			pq = fn
+		case "(*Parser).parseSimpleQueryExpr":
+			simple = fn
+		}
+	}
+	if la == nil || pq == nil || simple == nil {
+		r.errorf("lookaheadSubQuery / parseQueryExpr / parseSimpleQueryExpr not found")
+		return
+	}
+	construct := "lookaheadSubQuery vs parseQueryExpr"
+	// the parser's side
+	var cont KSet
+	ncalls := 0
+	ci := &ctxInfo{key: tkCtx{fn: pq, entry: kTop().Key(), clean: true}, fn: pq, entry: kTop(), consts: map[int]string{}}
+	for _, b := range pq.Blocks {
+		for _, in := range b.Instrs {
+			c, ok := in.(*ssa.Call)
+			if !ok || c.Call.StaticCallee() != simple {
+				continue
+			}
+			if b.Index != 0 && !pq.Blocks[0].Dominates(b) {
+				continue
+			}
+			// only the first call (the left operand): the one not inside the set-operator loop
+			inLoop := false
+			for _, l := range naturalLoops(pq) {
+				if l.body[b] {
+					inLoop = true
+				}
+			}
+			if inLoop {
+				continue
+			}
+			ncalls++
+			res, _ := tk.flowAfter(ci, in, newTState(kTop()))
+			for at, f := range res.consumedAt {
+				if os.Getenv("VERIF_C08_DEBUG") != "" {
+					fmt.Fprintf(os.Stderr, "R7 consumedAt %s: %s\n", w.pos(at.Pos()), f)
+				}
+				cont = cont.Join(f)
+			}
+		}
+	}
+	atoms, finite := cont.Finite()
+	if ncalls != 1 || !finite || len(atoms) == 0 {
+		r.undecided(rule, construct, w.pos(pq.Pos()), fmt.Sprintf("cannot determine the continuation kinds of parseQueryExpr (calls=%d, set=%s)", ncalls, cont))
+		return
+	}
+	// the predictor's side
+	var yes KSet
+	lres := tk.Intra(la)
+	for _, rs := range lres.ret {
+		if len(rs.ret.Results) == 1 {
+			if cb, ok := returnedConstBool(rs.ret); ok && !cb {
+				continue
+			}
+		}
+		yes = yes.Join(rs.st.cur)
+	}
+	var missing []string
+	for _, a := range atoms {
+		if yes.Excludes(a) {
+			missing = append(missing, a)
+		}
+	}
+	if len(missing) > 0 {
+		r.bad(rule, construct, w.pos(la.Pos()), fmt.Sprintf("parseQueryExpr continues after a parenthesised query on %v, lookaheadSubQuery says yes only on %s: ((SELECT ...) %s ...) is not recognised as a sub-query", atoms, yes, missing[0]))
+	} else {
+		r.ok(rule, construct, w.pos(la.Pos()), fmt.Sprintf("continuation kinds %v all answered yes (%s)", atoms, yes))
+	}
+}
+
+// returnedConstBool: the single result of the return is a boolean constant, directly or through the
+// result cell go/ssa introduces in functions with defers (*r = c; rundefers; t = *r; return t).
+func returnedConstBool(ret *ssa.Return) (bool, bool) {
+	v := ret.Results[0]
+	if cb, ok := constBool(v); ok {
+		return cb, true
+	}
+	addr, ok := isLoad(v)
+	if !ok {
+		return false, false
+	}
+	var last ssa.Value
+	for _, in := range ret.Block().Instrs {
+		if st, ok := in.(*ssa.Store); ok && st.Addr == addr {
+			last = st.Val
+		}
+	}
+	if last == nil {
+		return false, false
+	}
+	return constBool(last)
 }
